@@ -83,7 +83,7 @@ Section LostGen.
     forall k, lost s (fst (delete_dependencies rr s x now)) k -> Clo s x k.
   Proof.
     intros Hi Hx k. pose proof Hi as (Hk & Hne & Hnv). unfold delete_dependencies.
-    destruct (search_state_pure rr s x now Hk Hne) as (found & Hs & Hfound). rewrite Hs.
+    destruct (search_state_pure s x now Hk Hne) as (found & Hs & Hfound). rewrite Hs.
     apply (rem_list_lost s x); [exact Hi|apply Sub_refl|].
     intros j Hj. apply Hfound in Hj. destruct Hj as (fact & Hl & Hh).
     split; [apply Hnv; congruence|].
@@ -119,9 +119,28 @@ Lemma st_Rem_lost_in_closure s id now :
   forall k, lost s (fst (st_Rem s id now)) k -> Clo s id k.
 Proof.
   intros Hk Hne Hnv Hx k. assert (Hi : lin_inv s now) by (repeat split; assumption).
-  unfold st_Rem. destruct (st_hooks s); [|apply rem_fuel_lost; assumption].
-  pose proof (st_get_noexp s id now Hne) as Hg.
-  destruct (st_get s id now) as [s1 o]. cbn [fst] in Hg. subst s1.
-  destruct o as [f|e|w|]; cbn [fst]; try (intros H; exfalso; eapply lost_refl; exact H).
-  apply rem_fuel_lost; assumption.
+  unfold st_Rem.
+  (* nothing is expired: the purges only empty the list of noted ids *)
+  assert (Hwrap : forall (r : state * outcome bool) s0,
+            Sub s0 (fst r) -> no_expired s0 now ->
+            (lost s (fst r) k -> Clo s id k) -> lost s (fst (with_purge r now)) k -> Clo s id k).
+  { intros r s0 HS Hne0 H. rewrite (with_purge_noexp r now (Sub_no_expired _ _ _ HS Hne0)).
+    cbn [fst]. exact H. }
+  destruct (st_hooks s).
+  - unfold st_get. rewrite (with_purge_noexp (get_body s id now) now)
+      by (rewrite (get_body_noexp s id now Hne); exact Hne).
+    rewrite (get_body_noexp s id now Hne). cbn [fst snd].
+    assert (Hi' : lin_inv (set_pending s []) now) by exact Hi.
+    destruct (snd (get_body s id now)) as [f|e|w|].
+    + apply (Hwrap _ (set_pending s [])); [apply st_rem_Sub|exact Hne|].
+      intros H. apply (Clo_mono (set_pending s []) s); [intros j f0 Hj; exact Hj|].
+      unfold st_rem in H. apply (rem_fuel_lost now (cascade_fuel (set_pending s [])) (set_pending s []) id Hi' Hx k).
+      exact H.
+    + apply (Hwrap _ (set_pending s [])); [apply Sub_refl|exact Hne|].
+      cbn [fst]. intros H. exfalso. eapply (lost_refl s); exact H.
+    + apply (Hwrap _ (set_pending s [])); [apply Sub_refl|exact Hne|].
+      cbn [fst]. intros H. exfalso. eapply (lost_refl s); exact H.
+    + apply (Hwrap _ (set_pending s [])); [apply Sub_refl|exact Hne|].
+      cbn [fst]. intros H. exfalso. eapply (lost_refl s); exact H.
+  - apply (Hwrap _ s); [apply st_rem_Sub|exact Hne|]. apply rem_fuel_lost; assumption.
 Qed.
